@@ -56,6 +56,15 @@ func main() {
 	}
 	if *export != "" {
 		repl[filepath.Join(*repo, "zz_verif_export.go")] = *export
+		pools := strings.TrimSuffix(*export, ".go") + "_pools.go"
+		if _, err := os.Stat(pools); err == nil {
+			// the pools file names sync.Pool: it must see the same (substituted) package
+			dst := filepath.Join(*out, "zz_verif_export_pools.go")
+			if err := rewriteFile(pools, dst); err != nil {
+				fatal("%s: %v", pools, err)
+			}
+			repl[filepath.Join(*repo, "zz_verif_export_pools.go")] = dst
+		}
 	}
 	b, _ := json.MarshalIndent(map[string]any{"Replace": repl}, "", " ")
 	if err := os.WriteFile(*overlay, b, 0o644); err != nil {
